@@ -112,51 +112,78 @@ def run(tier):
     single = {n: o["smiles"] for n, o in zip(names, singles)}
     stats = {"denotes": 0, "nospec": 0, "noref": 0, "nodes_compared": 0}
     model_bad = []
-    for (t, sfx), txt, o in zip(trees, texts, outs):
+    orc.close()
+    # the extracted Coq functions run in a pool of driver processes (one per thread); results are reported in order
+    import threading
+    from concurrent.futures import ThreadPoolExecutor
+    local = threading.local()
+    pool_orcs = []
+
+    def judge(i):
+        if not hasattr(local, "orc"):
+            local.orc = chem.Oracle()
+            pool_orcs.append(local.orc)
+        drv = local.orc.drv
+        (t, sfx), txt, o = trees[i], texts[i], outs[i]
         need = res_names(t)[1:] + [t.name + sfx]
-        report.case(txt, t.size() >= 3, {"glycan": txt, "residues": t.size(), "depth": t.depth()} if stats["denotes"] < 5 else None)
+        out = {"bad": [], "nodes": 0, "verdict": None}
         # 1. correspondence of the merger model, node by node, string-exact
         for nd in o["nodes"]:
             if nd.get("raw") is None:
                 continue
-            stats["nodes_compared"] += 1
-            rl = C.Driver.unesc(orc.drv.call("relabel", nd["raw"], str(nd["ring_index"])))
+            out["nodes"] += 1
+            rl = C.Driver.unesc(drv.call("relabel", nd["raw"], str(nd["ring_index"])))
             if rl != nd["me"]:
-                model_bad.append((txt, "relabel", nd["raw"], nd["ring_index"], rl, nd["me"]))
+                out["bad"].append((txt, "relabel", nd["raw"], nd["ring_index"], rl, nd["me"]))
                 continue
             ch = nd["children"]
             if any(c is None for c in ch):
                 continue
-            ans = orc.drv.call("mergechildren", nd["me"], *ch).split("\t")
+            ans = drv.call("mergechildren", nd["me"], *ch).split("\t")
             if ans[0] == "RAISE":
                 if "exc" not in nd:
-                    model_bad.append((txt, "merge", nd["me"], ch, "RAISE", nd.get("result")))
+                    out["bad"].append((txt, "merge", nd["me"], ch, "RAISE", nd.get("result")))
             elif "result" not in nd or C.Driver.unesc(ans[1]) != nd["result"]:
-                model_bad.append((txt, "merge", nd["me"], ch, C.Driver.unesc(ans[1]), nd.get("result"), nd.get("exc")))
+                out["bad"].append((txt, "merge", nd["me"], ch, C.Driver.unesc(ans[1]), nd.get("result"), nd.get("exc")))
         # 2. the property: the output denotes the glycan that was written
         if any(not single.get(n) for n in need):
-            stats["noref"] += 1
-            continue
+            out["verdict"] = ("noref",)
+            return out
         enc = enc_tree(t, single, None, sfx)
         if not o["smiles"]:
-            if orc.drv.call("specmol", enc) == "1":
+            out["verdict"] = ("empty", drv.call("specmol", enc))
+            return out
+        out["verdict"] = ("denotes", drv.call("denotes", o["smiles"], enc))
+        return out
+
+    with ThreadPoolExecutor(max_workers=12) as ex:
+        judged = list(ex.map(judge, range(len(trees))))
+    for x in pool_orcs:
+        x.close()
+    for (t, sfx), txt, o, j in zip(trees, texts, outs, judged):
+        need = res_names(t)[1:] + [t.name + sfx]
+        report.case(txt, t.size() >= 3, {"glycan": txt, "residues": t.size(), "depth": t.depth()} if stats["denotes"] < 5 else None)
+        stats["nodes_compared"] += j["nodes"]
+        model_bad.extend(j["bad"])
+        v = j["verdict"]
+        if v[0] == "noref":
+            stats["noref"] += 1
+        elif v[0] == "empty":
+            if v[1] == "1":
                 report.fail({"site": "assembly", "kind": "empty", "why": (o["exc"] or "gate").split(":")[0]},
                             {"glycan": txt, "problem": "a well-formed glycan came back empty", "exc": o["exc"],
                              "nodes": o["nodes"][-3:], "replay_cmd": "./check C01 --replay <this file>"})
             else:
                 stats["nospec"] += 1
-            continue
-        v = orc.drv.call("denotes", o["smiles"], enc)
-        if v == "1":
+        elif v[1] == "1":
             stats["denotes"] += 1
-        elif v == "NOSPEC":
+        elif v[1] == "NOSPEC":
             stats["nospec"] += 1
         else:
-            report.fail({"site": "assembly", "kind": "wrong-molecule" if v == "0" else v},
+            report.fail({"site": "assembly", "kind": "wrong-molecule" if v[1] == "0" else v[1]},
                         {"glycan": txt, "observed": o["smiles"], "residues": {n: single[n] for n in need},
                          "problem": "the returned SMILES is not the molecule obtained by joining the individually converted residues as the linkages say",
                          "replay_cmd": "./check C01 --replay <this file>"})
-    orc.close()
     if broken and not report.violations:
         report.fail({"site": "proof", "kind": "obligation-broken"},
                     {"no_failing_input": True, "what_no_longer_checks": broken, "theorems": names_thm})
